@@ -248,6 +248,27 @@ int main(int argc, char** argv) {
   vf_cur_what = "usable size of real allocations";
   for (size_t n = 0; n <= MI_MEDIUM_OBJ_SIZE_MAX + 1; n += (full || n < 4096 ? 1 : 13)) check_malloc(n);
   for (size_t bin = 1; bin < MI_BIN_HUGE; bin++) { size_t b = _mi_bin_size(bin); if (b > 4 * 1024 * 1024) break; for (int d = -1; d <= 1; d++) check_malloc(b + (size_t)d); }
+  // the class a request lands in must not depend on the history of the heap: with pages of many classes alive, sweep again
+  // downwards, upwards and in random order (blocks are kept, so the direct page table of the heap is fully populated)
+  vf_cur_what = "usable size with a populated heap";
+  {
+    enum { KEEP = 4096 };
+    static void* keep[KEEP]; size_t nk = 0;
+    for (size_t n = 8; n <= MI_SMALL_SIZE_MAX + 256 && nk < KEEP; n += 8) { keep[nk++] = mi_malloc(n); }            // one live block per small class
+    for (size_t n = MI_SMALL_SIZE_MAX + 256; n-- > 0; ) { void* p = mi_malloc(n); n_malloc++;
+      if (!padding && mi_usable_size(p) != mi_good_size(n)) FAIL("descending sweep: mi_usable_size(mi_malloc(%zu)) = %zu but mi_good_size = %zu", n, mi_usable_size(p), mi_good_size(n));
+      if (mi_usable_size(p) < n) FAIL("descending sweep: usable %zu < %zu", mi_usable_size(p), n);
+      mi_free(p); }
+    for (size_t n = 0; n <= MI_SMALL_SIZE_MAX + 256; n++) { void* p = mi_malloc(n); n_malloc++;
+      if (!padding && mi_usable_size(p) != mi_good_size(n)) FAIL("second ascending sweep: mi_usable_size(mi_malloc(%zu)) = %zu but mi_good_size = %zu", n, mi_usable_size(p), mi_good_size(n));
+      mi_free(p); }
+    vf_rng_t r; vf_rng_seed(&r, 777);
+    for (int i = 0; i < (full ? 2000000 : 200000); i++) { size_t n = (size_t)vf_rng_below(&r, (i & 7) ? MI_SMALL_SIZE_MAX + 64 : MI_MEDIUM_OBJ_SIZE_MAX + 64); void* p = (i & 1) ? mi_malloc(n) : mi_zalloc(n); n_malloc++;
+      if (!padding && n <= MI_MEDIUM_OBJ_SIZE_MAX && mi_usable_size(p) != mi_good_size(n)) FAIL("random order: mi_usable_size(mi_malloc(%zu)) = %zu but mi_good_size = %zu", n, mi_usable_size(p), mi_good_size(n));
+      if (mi_usable_size(p) < n) FAIL("random order: usable %zu < %zu", mi_usable_size(p), n);
+      if (nk < KEEP && (i % 97) == 0) keep[nk++] = p; else mi_free(p); }
+    for (size_t i = 0; i < nk; i++) mi_free(keep[i]);
+  }
   vf_cur_what = "span bins"; check_slice_bins();
   vf_cur_what = "fast divide"; check_fast_divide();
   vf_cur_what = "utilities"; check_utils();
